@@ -1,6 +1,7 @@
 package main
 
 import (
+	"encoding/base64"
 	"errors"
 	"fmt"
 	"net/http/httptest"
@@ -13,18 +14,18 @@ import (
 )
 
 type TokSpec struct {
-	Prov   string // jwk | jwk2 | k8s | oidc (id = nonce; JTI is the nonce) | admintok (x5c admin token) | renewtok (x5cInsecure renew token)
+	Prov   string // sshpop (proof-of-possession token of the CA's SSH host certificate; Aud = sshrenew | sshrekey | sshrevoke) | jwk | jwk2 | k8s | oidc (id = nonce; JTI is the nonce) | admintok (x5c admin token) | renewtok (x5cInsecure renew token)
 	JTI    string // "r" = random, "-" = no jti claim, anything else = that literal (shared between tokens)
 	IatOff int    // seconds the iat lies before the mint instant
 	NoIat  bool   // no iat claim
 	Defect string // "" | badsig | expired | aud | kid | garbage
-	Aud    string // sign | revoke
+	Aud    string // sign | revoke | sshsign (JWK token with step.ssh options) | sshrenew | sshrekey | sshrevoke (sshpop)
 }
 
 type ReqSpec struct {
 	Tok    int
 	Spell  int    // 0 tok, 1 tok+"\n", 2 " "+tok, 3 tok+"="
-	Method string // sign | revoke (Authority.Authorize) | admin (Authority.AuthorizeAdminToken) | renewtoken (Authority.AuthorizeRenewToken)
+	Method string // sign | revoke | sshsign | sshrenew | sshrekey | sshrevoke (Authority.Authorize: every method goes through authorizeToken) | admin (Authority.AuthorizeAdminToken) | renewtoken (Authority.AuthorizeRenewToken)
 	Skip   bool   // authority.NewContextWithSkipTokenReuse
 }
 
@@ -87,7 +88,36 @@ func (e *env) mintTok(ts *TokSpec, jtis map[string]string) *minted {
 	if ts.Defect == "expired" {
 		exp = now.Add(-10 * time.Minute)
 	}
+	allMethods := []string{"sign", "revoke", "sshsign", "sshrenew", "sshrekey", "sshrevoke"}
 	switch ts.Prov {
+	case "sshpop":
+		aud := ts.Aud
+		if aud != "sshrenew" && aud != "sshrekey" && aud != "sshrevoke" {
+			aud = "sshrenew"
+		}
+		path := map[string]string{"sshrenew": "/1.0/ssh/renew", "sshrekey": "/1.0/ssh/rekey", "sshrevoke": "/1.0/ssh/revoke"}[aud]
+		claims["iss"] = "sshpop"
+		claims["sub"] = strconv.FormatUint(e.sshCert.Serial, 10)
+		claims["aud"] = "https://ca.verif.test" + path + "#sshpop/sshpop"
+		claims["nbf"] = now.Add(-time.Minute).Unix()
+		claims["exp"] = exp.Unix()
+		key := any(e.sshKey)
+		switch ts.Defect {
+		case "badsig":
+			key = e.jwk2.Key
+		case "aud":
+			claims["aud"] = "https://other.verif.test" + path + "#sshpop/sshpop"
+			m.lookupOK = false
+		case "kid":
+			claims["aud"] = "https://ca.verif.test" + path + "#sshpop/nosuch"
+			m.lookupOK = false
+		}
+		m.str = mintHdr(key, "ES256", map[string]any{"sshpop": base64.StdEncoding.EncodeToString(e.sshCert.Marshal())}, claims)
+		good := ts.Defect == "" && (ts.NoIat || ts.IatOff < 3000)
+		for _, mth := range allMethods {
+			m.valid[mth] = good && mth == aud // SSHPOP authorizes exactly the operation its audience names
+		}
+		m.idr = "k" + c.X(jti)
 	case "oidc":
 		// JTI plays the nonce; no nonce => the id is the hash of the presented string
 		delete(claims, "jti")
@@ -164,6 +194,10 @@ func (e *env) mintTok(ts *TokSpec, jtis map[string]string) *minted {
 		if ts.Aud == "revoke" {
 			aud = "https://ca.verif.test/1.0/revoke"
 		}
+		if ts.Aud == "sshsign" {
+			aud = "https://ca.verif.test/1.0/ssh/sign"
+			claims["step"] = map[string]any{"ssh": map[string]any{"certType": "host", "keyID": claims["sub"], "principals": []string{claims["sub"].(string)}}}
+		}
 		switch ts.Defect {
 		case "badsig":
 			if ts.Prov == "jwk2" {
@@ -185,8 +219,12 @@ func (e *env) mintTok(ts *TokSpec, jtis map[string]string) *minted {
 		claims["sans"] = []string{claims["sub"].(string)}
 		m.str = mint(signKey.Key, "ES256", kid, claims)
 		good := ts.Defect == "" && (ts.NoIat || ts.IatOff < 3000)
-		m.valid["sign"] = good && ts.Aud != "revoke"
+		// the sign audiences include the ssh/sign URLs and vice versa (config.GetAudiences); an SSH sign needs the step.ssh options
+		m.valid["sign"] = good && (ts.Aud == "sign" || ts.Aud == "" || ts.Aud == "sshsign")
 		m.valid["revoke"] = good && ts.Aud == "revoke"
+		m.valid["sshsign"] = good && ts.Aud == "sshsign" && ts.Prov != "jwk2" // the SSH CA is enabled in the claims of "jwk" only
+		// a JWK token is never a proof of possession: renew and rekey are refused; ssh revoke needs its own audience
+		m.valid["sshrenew"], m.valid["sshrekey"], m.valid["sshrevoke"] = false, false, false
 		m.idr = "k" + c.X(jti)
 	}
 	if ts.Defect == "garbage" {
@@ -478,6 +516,12 @@ func cornerHists() []*Hist {
 		hs = append(hs, &Hist{DB: dbm, Toks: []TokSpec{{Prov: "renewtok", JTI: "r"}, {Prov: "admintok", JTI: "r"}, {Prov: "renewtok", JTI: "z"}, {Prov: "jwk", JTI: "z", Aud: "sign"}},
 			Reqs:  []ReqSpec{{0, 0, "renewtoken", false}, {0, 0, "renewtoken", false}, {1, 0, "admin", false}, {1, 0, "admin", false}, {0, 0, "renewtoken", false}, {1, 0, "admin", false}, {2, 0, "renewtoken", false}, {3, 0, "sign", false}},
 			Sched: []int{0, 1, 1, 0, 1, 0, 2, 3, 2, 3, 3, 2, -1, 4, 4, 4, 5, 5, 5, 6, 6, 6, 7, 7, 7}})
+		// every SSH method of Authorize burns its token: proof-of-possession tokens for renew / rekey / revoke, a JWK token for ssh sign;
+		// replayed, across a restart, presented to another method
+		hs = append(hs, &Hist{DB: dbm, Toks: []TokSpec{{Prov: "sshpop", JTI: "r", Aud: "sshrenew"}, {Prov: "sshpop", JTI: "r", Aud: "sshrekey"}, {Prov: "sshpop", JTI: "r", Aud: "sshrevoke"}, {Prov: "jwk", JTI: "r", Aud: "sshsign"}},
+			Reqs: []ReqSpec{{0, 0, "sshrenew", false}, {0, 0, "sshrenew", false}, {1, 0, "sshrekey", false}, {1, 0, "sshrekey", false}, {2, 0, "sshrevoke", false}, {2, 0, "sshrevoke", false},
+				{3, 0, "sshsign", false}, {3, 0, "sshsign", false}, {1, 0, "sshrekey", false}, {0, 0, "sshrekey", false}},
+			Sched: append(append(seqSched(8), -1), 8, 8, 8, 9, 9, 9)})
 		// issued-at: old token on a fresh CA; with the check disabled
 		hs = append(hs, &Hist{DB: dbm, Toks: []TokSpec{{Prov: "jwk", JTI: "r", IatOff: 30, Aud: "sign"}, {Prov: "jwk", JTI: "r", NoIat: true, Aud: "sign"}},
 			Reqs: []ReqSpec{{0, 0, "sign", false}, {1, 0, "sign", false}}, Sched: seqSched(2)})
@@ -510,6 +554,8 @@ func genHist(r *c.Rng) *Hist {
 			ts.Prov = "admintok"
 		case 5:
 			ts.Prov = "renewtok"
+		case 6, 7:
+			ts.Prov = "sshpop"
 		}
 		switch r.Intn(8) {
 		case 0, 1:
@@ -530,6 +576,11 @@ func genHist(r *c.Rng) *Hist {
 		}
 		if r.Chance(1, 6) {
 			ts.Aud = "revoke"
+		} else if r.Chance(1, 8) {
+			ts.Aud = "sshsign"
+		}
+		if ts.Prov == "sshpop" {
+			ts.Aud = c.Pick(r, []string{"sshrenew", "sshrekey", "sshrekey", "sshrevoke"})
 		}
 		h.Toks = append(h.Toks, ts)
 	}
@@ -546,6 +597,16 @@ func genHist(r *c.Rng) *Hist {
 			rq.Method = "revoke"
 		}
 		rq.Skip = r.Chance(1, 12)
+		// every method of Authority.Authorize: usually the one the token was minted for, sometimes another
+		switch a := h.Toks[rq.Tok].Aud; a {
+		case "sshsign", "sshrenew", "sshrekey", "sshrevoke":
+			if !r.Chance(1, 6) {
+				rq.Method = a
+			}
+		}
+		if r.Chance(1, 15) {
+			rq.Method = c.Pick(r, []string{"sign", "revoke", "sshsign", "sshrenew", "sshrekey", "sshrevoke"})
+		}
 		switch h.Toks[rq.Tok].Prov {
 		case "admintok":
 			rq.Method, rq.Skip = "admin", false
